@@ -171,6 +171,11 @@ pub fn ring_inv_large<const NM: usize>(m: [Word; NM], f: [Word; 2], bits: u32) {
 /// two 3-word moduli m = (2^64+1)*c (one normalised, one needing a shift) and residues of 1, 2 and 3 words,
 /// with and without a common factor (including a multi-word gcd whose lowest word is 1); expected values
 /// are constants computed outside (Python pow(a, -1, m))
+#[cfg(not(force_bits = "64"))]
+pub fn ring_inv_large_literals(_which: u8) {}
+
+/// (64-bit words only: the table holds 64-bit literals)
+#[cfg(force_bits = "64")]
 pub fn ring_inv_large_literals(which: u8) {
     let (m, a, want): (&[Word], &[Word], Option<[Word; 3]>) = match which {
         0 => (&[3,4,1], &[1,1], None),
